@@ -523,6 +523,11 @@ func (e *Engine) BuildQuery(facts []*Term, goal *Term, solver string, lenBound b
 	if e.HypFuelFull {
 		hypFuel = topFuel
 	}
+	for _, n := range sortedKeys(q.consts) {
+		if strings.HasPrefix(n, "global!") && e.sentinels[n] != nil {
+			p("(assert (not (= %s nil.Iface)))", smtName(n))
+		}
+	}
 	for _, f := range facts {
 		p("(assert %s)", addFuel(f, hypFuel, rec))
 	}
